@@ -55,6 +55,7 @@ func CheckC12(l *Lab, verifDir string) int {
 				case 7:
 					c.Template = "x{{ username }}x{{ username }}"
 				}
+				c.TplFile = id%2 == 1
 				cfgs = append(cfgs, c)
 				id++
 			}
@@ -124,7 +125,7 @@ func c12One(l *Lab, rep *Report, idp *IdP, c c12Cfg) {
 	}
 	if c.TplFile {
 		pth := filepath.Join(l.NewDir("c12tpl"), "defaults.rdp")
-		os.WriteFile(pth, []byte("audiomode:i:2\r\nscreen mode id:i:1\r\nusername:s:template-user\r\nfull address:s:template-host:1\r\n"), 0600)
+		os.WriteFile(pth, []byte("audiomode:i:2\r\nscreen mode id:i:1\r\nfull address:s:template-host:1\r\ngatewayaccesstoken:s:template-token\r\n"), 0600)
 		cfg.Defaults = pth
 	}
 	g, err := l.StartGateway(cfg)
@@ -470,33 +471,42 @@ func c12One(l *Lab, rep *Report, idp *IdP, c c12Cfg) {
 		}
 		var mu sync.Mutex
 		var files []got
-		var wg sync.WaitGroup
-		for _, s := range sessions {
-			for k := 0; k < 4; k++ {
-				wg.Add(1)
-				go func(s *c12Session) {
-					defer wg.Done()
-					q := ""
-					if c.Mode != "roundrobin" {
-						q = "?host=" + url.QueryEscape(c12GoodQuery(c, hosts[0], s.user, time.Now().Unix()+3600))
-					}
-					// a fresh browser object per request: the jar is only read
-					b2 := NewBrowser(g, s.local)
-					b2.XFF = s.br.XFF
-					for ck, cv := range s.br.Cookies {
-						b2.Cookies[ck] = cv
-					}
-					r, err := b2.Do("GET", "/connect"+q, nil)
+		for burst := 0; burst < 6; burst++ {
+			// connections are established first, the requests are then written at the same moment
+			var wg sync.WaitGroup
+			start := make(chan struct{})
+			for _, s := range sessions {
+				for k := 0; k < 2; k++ {
+					hc, err := DialH(g.Addr, DialOpts{LocalIP: s.local})
 					if err != nil {
-						return
+						continue
 					}
-					mu.Lock()
-					files = append(files, got{s, string(r.Body), r.Status})
-					mu.Unlock()
-				}(s)
+					wg.Add(1)
+					go func(s *c12Session, hc *HConn) {
+						defer wg.Done()
+						defer hc.Close()
+						q := ""
+						if c.Mode != "roundrobin" {
+							q = "?host=" + url.QueryEscape(c12GoodQuery(c, hosts[0], s.user, time.Now().Unix()+3600))
+						}
+						hdr := Hdr{{"Connection", "close"}, {"Cookie", s.br.cookieHeader()}}
+						for _, x := range s.br.XFF {
+							hdr = append(hdr, [2]string{"X-Forwarded-For", x})
+						}
+						<-start
+						r, err := hc.Do("GET", "/connect"+q, hdr, nil, 15*time.Second)
+						if err != nil {
+							return
+						}
+						mu.Lock()
+						files = append(files, got{s, string(r.Body), r.Status})
+						mu.Unlock()
+					}(s, hc)
+				}
 			}
+			close(start)
+			wg.Wait()
 		}
-		wg.Wait()
 		for _, gf := range files {
 			if gf.code != 200 || !strings.Contains(gf.body, "gatewayaccesstoken") {
 				continue
